@@ -15,7 +15,7 @@ use std::time::Duration;
 
 pub struct C07;
 
-pub const STATES: [&str; 15] = [
+pub const STATES: [&str; 16] = [
     "clean",
     "clean-multi",
     "warn-deprecated",
@@ -31,6 +31,7 @@ pub const STATES: [&str; 15] = [
     "err-redefinition",
     "err-rule-violation",
     "err-redefinition-across-files",
+    "err-bad-file-attribute-in-module-less-file",
 ];
 
 pub fn clean_text(i: usize) -> String {
@@ -132,7 +133,27 @@ fn case(cx: &mut CaseCtx, input: Input) -> CaseResult {
         warning_expected = true;
         groups.push(vec![os("./f0.slice")]);
     }
+    // now and then one more file that declares no module (empty or comment only), as source or reference:
+    // a clean program stays clean
+    if pick(&mut u, 4) == 0 {
+        let text: &[u8] = if pick(&mut u, 2) == 0 { b"" } else { b"// nothing to see\n" };
+        dir.write("blank.slice", text);
+        if pick(&mut u, 2) == 0 {
+            groups.push(vec![os("-R"), os("blank.slice")]);
+            cx.label("module-less-reference-file");
+        } else {
+            groups.push(vec![os("blank.slice")]);
+            cx.label("module-less-source-file");
+        }
+    }
     match state {
+        "err-bad-file-attribute-in-module-less-file" => {
+            // a file that consists of a file attribute which is illegal there, and nothing else
+            error_expected = true;
+            let text = ["[[oneway]]\n", "[[compress(Args)]]\n", "[[deprecated]]\n[[deprecated(\"again\")]]\n", "[[allow(Bogus)]]\n"][pick(&mut u, 4)];
+            dir.write("attrs.slice", text.as_bytes());
+            groups.push(vec![os("attrs.slice")]);
+        }
         "warn-duplicate-file" => {
             warning_expected = true;
             groups.push(vec![os("./f0.slice")]);
@@ -162,6 +183,14 @@ fn case(cx: &mut CaseCtx, input: Input) -> CaseResult {
     if outdir {
         let _ = std::fs::create_dir_all(dir.path.join("out"));
         groups.push(if pick(&mut u, 2) == 0 { vec![os("-O"), os("out")] } else { vec![os("--output-dir=out")] });
+    }
+    // with -O: the working directory may already hold identical files of the same names (left by an
+    // earlier run without -O); the files still have to appear in the output directory
+    if outdir && pick(&mut u, 3) == 0 {
+        for g in 0..ngen {
+            dir.write(&format!("gen{g}.out"), b"generated");
+        }
+        cx.label_if(ngen > 0, "identical-files-in-cwd-with-output-dir");
     }
     let mut gens = Vec::new();
     for g in 0..ngen {
@@ -305,7 +334,7 @@ impl Check for C07 {
         "C07"
     }
     fn rule(&self) -> String {
-        "proptest choice sequences -> (program state out of 15: clean, warnings only by three different lints, exactly one error of each phase incl. three kinds of I/O error and a redefinition across files, placed in any one of 1..4 source / reference files) x 0..3 instrumented fake generators (one optionally failing by exit status, by stderr output, or by being killed by a signal after a complete valid reply) x --dry-run x human/json x -A lists x -O / --output-dir= x the first file optionally named twice (DuplicateFile warning next to any state) x option order (as built, or options inserted at drawn positions among the files and generators); run through the real binary; oracle: invocation log of each generator exists <=> no error and no --dry-run, output files appear only then (and not for the failing generator), exit status != 0 <=> an error diagnostic was emitted (JSON lines / 'error [' headers). Non-trivial = >= 1 generator and not the plain clean run".into()
+        "proptest choice sequences -> (program state out of 15: clean, warnings only by three different lints, exactly one error of each phase incl. three kinds of I/O error and a redefinition across files, placed in any one of 1..4 source / reference files; one more state: a module-less file holding only an illegal file attribute; now and then an extra empty / comment-only source or reference file; with -O the working directory may already hold identical output files) x 0..3 instrumented fake generators (one optionally failing by exit status, by stderr output, or by being killed by a signal after a complete valid reply) x --dry-run x human/json x -A lists x -O / --output-dir= x the first file optionally named twice (DuplicateFile warning next to any state) x option order (as built, or options inserted at drawn positions among the files and generators); run through the real binary; oracle: invocation log of each generator exists <=> no error and no --dry-run, output files appear only then (and not for the failing generator), exit status != 0 <=> an error diagnostic was emitted (JSON lines / 'error [' headers). Non-trivial = >= 1 generator and not the plain clean run".into()
     }
     fn assumptions(&self) -> Vec<String> {
         vec!["fake generators follow the documented protocol (read all of stdin, then reply)".into()]
@@ -338,6 +367,10 @@ impl Check for C07 {
             "state:err-redefinition",
             "state:err-rule-violation",
             "state:err-redefinition-across-files",
+            "state:err-bad-file-attribute-in-module-less-file",
+            "module-less-reference-file",
+            "module-less-source-file",
+            "identical-files-in-cwd-with-output-dir",
         ]);
         v
     }
